@@ -18,7 +18,7 @@ TRUSTED = _c02.TRUSTED + ["model of CPython slot_tp_hash: a __hash__ result outs
                           "documented numeric hash definition (sys.hash_info: modulus 2^61-1, imag multiplier 1000003, width 64)"]
 ASSUMPTIONS = _c02.ASSUMPTIONS + ["hash obligations: binary exponent concrete per obligation (grid), mantissa symbolic"]
 BUDGET = {'quick': dict(ob_deadline_s=100, total_s=150), 'thorough': dict(ob_deadline_s=900, total_s=1800)}
-BOUNDS = {'quick': 'comparison operands up to 30 bits, offsets -40..40; hash mantissas up to 64 bits, exponents -62..130',
+BOUNDS = {'quick': 'comparison operands up to 30 bits, offsets -40..40, ints to 62 bits (longer than the context precision), floats incl. subnormal and huge exponents; hash mantissas up to 64 bits, exponents -62..130',
           'thorough': 'comparison operands up to 120 bits; hash exponents to -130 and 200-bit mantissas'}
 
 
@@ -42,6 +42,11 @@ def obligations(tier, seed=0):
             add('cmp', sbc=sbc, tbc=tbc, off=off, fn=fn, entry='op')
     for bc, exp, nbc in [(5, -2, 3), (5, 1, 6), (3, 0, 3), (3, 0, 0), (1, 2, 3), (7, -7, 1), (4, 0, 4), (9, 3, 12), (3, 9, 12)]:
         for nneg in ((0, 1) if nbc else (0,)):
+            for fn in ('<', '<=', '>', '>=', '==', '!='):
+                add('cmp_int', bc=bc, exp=exp, nbc=nbc, nneg=nneg, fn=fn)
+    # ints longer than the working precision (53 bits here): the comparison must use the exact int
+    for bc, exp, nbc in [(3, 60, 62), (53, 1, 55), (10, 50, 60), (1, 53, 54), (53, 0, 54)]:
+        for nneg in (0, 1):
             for fn in ('<', '<=', '>', '>=', '==', '!='):
                 add('cmp_int', bc=bc, exp=exp, nbc=nbc, nneg=nneg, fn=fn)
     # mpf <op> Python float (dyadic float model through from_float)
